@@ -8,41 +8,41 @@ V = os.path.dirname(os.path.dirname(os.path.abspath(__file__)))
 CLAIMS = {
     "C01": ("static necessary conditions of the sorted/threaded AVL containers: equal-range contract between MultiMap::find and its forward-scanning consumers, sentinel-guarded walks, rebalance loop on every structural path of insert/remove, list threading, hinted-insert cell choice evaluated over all key orderings, cell-based descent started below the root only with an established key range, double-rotation decision table of shiftl/shiftr over child slope -1/0/+1, direction table of the descent, mirror symmetry of the rotations; updateHeightAndSlope and the rebal dispatch evaluated over all child-height / slope / parent-link configurations; the agreement with a reference map over all histories and the numeric height bound are NOT decided",
             "MPT/DOM path rules + finite ordering enumeration over clang AST/CFG", "3 C01"),
-    "C02": ("static necessary conditions for HashMap/HashSet/PoolMap: members instantiate for T != V (compile witness), find-then-link dominance, bucket-chain back-pointer pairing, order-list link/unlink on all paths, clear resets bucket heads, swap hands over completely, bucket index reduced by the sizing capacity; operator== walks both insertion-order lists in step comparing key and value under equal sizes; agreement with a reference ordered map over all histories is NOT decided",
+    "C02": ("static necessary conditions for HashMap/HashSet/PoolMap: members instantiate for T != V (compile witness), find-then-link dominance, bucket-chain back-pointer pairing, order-list link/unlink on all paths, clear resets bucket heads, swap hands over completely, bucket index reduced by the sizing capacity; operator== walks both insertion-order lists in step comparing key and value under equal sizes; no step of the iterator after `it = remove(it)` in one iteration; agreement with a reference ordered map over all histories is NOT decided",
             "compile witness + MPT/DOM/PAIRF rules over clang AST/CFG", "3 C02"),
     "C03": ("static necessary conditions for List/Array/PoolList: members instantiate (compile witness), link/unlink idioms complete on all paths with the documented returned iterator, clear/swap complete, Array storage discipline (reserve dominates construction, allocation sized by capacity, shifting removal destroys exactly the vacated slot, removal by index only under index < size()); List::operator== compares position by position under equal sizes; self-referential arguments of Array/List growth (rule shared with C04, 4 known findings); element-wise agreement with a reference sequence and sort order are NOT decided",
             "compile witness + MPT/DOM/CNT rules over clang AST/CFG", "3 C03"),
     "C04": ("pairing rules on all paths of all eight containers: rule of three, self-assignment order, construct only into fresh slots, destroy exactly once then recycle, only the destructor frees and it frees everything, Array growth pairing, ALIAS rule for arguments that may refer into the container (4 known findings), removal unlinks the destroyed node from the order list and its bucket chain; close to the structural content of the statement, but leak freedom over all histories still rests on unproved shape invariants; Array::reserve frees the old block on every path on which it is not null",
             "class facts + ORD/CNT/MPT/WHO/ALIAS rules over clang AST/CFG", "3 C04"),
-    "C05": ("who-may-relocate rules: only the destructor frees blocks, placement-new only into fresh slots, no payload assignment between nodes, destroy-then-recycle of a removed slot, swap is a complete pointer hand-over, pool containers instantiate fully for a non-copyable element and cannot be copied (compile witnesses), pool node/element offsets agree with the Item layout; self-assignment of a node container touches no node; these are the code-shape facts from which address stability follows, the per-history statement itself is NOT decided",
+    "C05": ("who-may-relocate rules: only the destructor frees blocks, placement-new only into fresh slots, no payload assignment between nodes, destroy-then-recycle of a removed slot, swap is a complete pointer hand-over, pool containers instantiate fully for a non-copyable element and cannot be copied (compile witnesses), pool node/element offsets agree with the Item layout; self-assignment of a node container touches no node; the position argument of an insertion is not read after `_begin` was re-seated; these are the code-shape facts from which address stability follows, the per-history statement itself is NOT decided",
             "WHO/DOM effect rules + compile witnesses", "3 C05"),
-    "C06": ("detach-before-write discipline on every String member: writes to the text block dominated by detach()/exclusive-owner test/fresh allocation, in-place detach only for count one and sufficient capacity (finite valuations), length stores paired with NUL stores, allocation shape sizeof(Data)+(c+1) with capacity c, sharing only of counted blocks, C-string view terminator check, ALIAS rule for self-referential arguments (2 known findings), join appends token (separator token)* on every path, detach(copyLength, minCapacity) called only with copyLength <= minCapacity; raw text pointers reach NUL-dependent readers only after detach(); no pointer into the text block is used after a call that may detach; byte equality with a reference string and search/format results are NOT decided",
+    "C06": ("detach-before-write discipline on every String member: writes to the text block dominated by detach()/exclusive-owner test/fresh allocation, in-place detach only for count one and sufficient capacity (finite valuations), length stores paired with NUL stores, allocation shape sizeof(Data)+(c+1) with capacity c, sharing only of counted blocks, C-string view terminator check, ALIAS rule for self-referential arguments (2 known findings), join appends token (separator token)* on every path, detach(copyLength, minCapacity) called only with copyLength <= minCapacity; raw text pointers reach NUL-dependent readers only after detach(); no pointer into the text block is used after a call that may detach; last-occurrence searches restart one byte behind a hit; byte equality with a reference string and search/format results are NOT decided",
             "DOM/PAIRF/FIN/ALIAS rules over clang AST/CFG", "3 C06"),
     "C07": ("tag<->payload table read from the constructors, every payload cast dominated by the matching tag (valuation over all tags), clear() exhaustive, mutable access to the current payload only for ref<=1 and matching tag (valuations), clones built in the fresh block, no pointer comparison of class operands, reference-count idioms, self-assignment order, no read of the own payload between release and re-seat; assignment operators take everything from their argument before releasing the own payload; coercion tables and equality over all values are NOT decided",
             "TAG/FIN/DOM rules over clang AST/CFG", "3 C07"),
-    "C09": ("the reference-counting safety argument reduced to code-shape facts on String, Variant, Xml::Variant, RefCount::Ptr: atomic-only counter updates, release only under `Atomic::decrement(..) == 0` evaluated in the condition, increment on every share, release before overwrite, acquire before release, paired handle fields, rule of three, clone target, exclusive-owner valuations, no in-place String text write without detach()/sole-owner test/fresh block; these imply exactly-once release under every interleaving of threads owning distinct handles, given full-barrier __sync builtins; no read of an assignment's argument after the release of the own payload (the argument may live inside it); weak-memory effects and misuse of one handle by two threads are NOT decided",
+    "C09": ("the reference-counting safety argument reduced to code-shape facts on String, Variant, Xml::Variant, RefCount::Ptr: atomic-only counter updates, release only under `Atomic::decrement(..) == 0` evaluated in the condition, increment on every share, release before overwrite, acquire before release, paired handle fields, rule of three, clone target, exclusive-owner valuations, no in-place String text write without detach()/sole-owner test/fresh block; these imply exactly-once release under every interleaving of threads owning distinct handles, given full-barrier __sync builtins; no read of an assignment's argument after the release of the own payload (the argument may live inside it); every path through an increment stores that block into the handle; weak-memory effects and misuse of one handle by two threads are NOT decided",
             "WHO/DOM/MPT/ORD/PAIRF/FIN rules over clang AST/CFG", "3 C09"),
-    "C10": ("protocol-shape rules on Future.hpp/Future.cpp: publication order (call once -> result -> state -> signal -> delete; join before reading; startProc prepares the future before handing the job over), reset-and-recheck before every queue wait, wake-up after every hand-off, atomic-only ring indices with fill-before-publish and ticket-before-CAS, one dispatch per pop counted only for real jobs, thread count paired with worker creation / retire tickets, spin-lock release and re-read in the lazy pool creation, worker list under the mutex; the result conversion has no way around join() unless the state is reset per run; liveness (every join eventually returns), lock-freedom and exactly-once under all interleavings of the ring are NOT decided",
+    "C10": ("protocol-shape rules on Future.hpp/Future.cpp: publication order (call once -> result -> state -> signal -> delete; join before reading; startProc prepares the future before handing the job over), reset-and-recheck before every queue wait, wake-up after every hand-off, atomic-only ring indices with fill-before-publish and ticket-before-CAS, one dispatch per pop counted only for real jobs, thread count paired with worker creation / retire tickets, spin-lock release and re-read in the lazy pool creation, worker list under the mutex; the result conversion has no way around join() unless the state is reset per run; one hand-over per job (no push after a successful push before the wake-up); liveness (every join eventually returns), lock-freedom and exactly-once under all interleavings of the ring are NOT decided",
             "ORD/MPT/DOM/WHO path rules over clang AST/CFG", "3 C10"),
-    "C12": ("structural rules on Callback: slot fields consulted only under a state test, physical removal only with no active emission and marking sets dirty, both sides updated together, all nine emit arities test state before and `invalidated` after each invocation and agree with each other, activation chain push/pop/propagation, ~Emitter invalidates first, every unlinking loop matches a record on all its identity fields, liveness table of the state tests (connected where invoked, connected+connecting where matched or torn down), Emitter/Listener not copyable; the invocation log against a model of live connections over all nested histories is NOT decided",
+    "C12": ("structural rules on Callback: slot fields consulted only under a state test, physical removal only with no active emission and marking sets dirty, both sides updated together, all nine emit arities test state before and `invalidated` after each invocation and agree with each other, activation chain push/pop/propagation, ~Emitter invalidates first, every unlinking loop matches a record on all its identity fields, liveness table of the state tests (connected where invoked, connected+connecting where matched or torn down), Emitter/Listener not copyable; `dirty` is cleared only where no emission is active; the invocation log against a model of live connections over all nested histories is NOT decided",
             "DOM/MPT/PAIRF rules + sibling comparison over clang AST/CFG", "3 C12"),
-    "C13": ("structural rules on the Server client write path: direct send only without backlog, buffered remainder is the exact complement of what send returned, every `return true` accounts for all bytes and failures queue the close, interest flags equal (read iff not suspended | write iff backlog) under all open valuations at every registration, would-block convention agrees between Socket::send/recv and their three consumers, postponed size, onWrite after drain and interest update with no use of the client afterwards, Poll::set prunes just-removed flags from the buffered epoll round (suspend); Socket::send returns the accepted byte count for every outcome sequence of the primitive; the byte stream at the peer for all OS send outcomes is NOT decided",
+    "C13": ("structural rules on the Server client write path: direct send only without backlog, buffered remainder is the exact complement of what send returned, every `return true` accounts for all bytes and failures queue the close, interest flags equal (read iff not suspended | write iff backlog) under all open valuations at every registration, would-block convention agrees between Socket::send/recv and their three consumers, postponed size, onWrite after drain and interest update with no use of the client afterwards, Poll::set prunes just-removed flags from the buffered epoll round (suspend); Socket::send returns the accepted byte count for every outcome sequence of the primitive; `buffer = 0` paired with `_capacity = 0` in the send backlog's Buffer; a new client is registered before it is handed to user code; the byte stream at the peer for all OS send outcomes is NOT decided",
             "DOM/MPT/FIN/TBL rules over clang AST/CFG", "3 C13"),
-    "C14": ("structural rules on the event loop: equal-range contract of MultiMap::find for forward-scanning consumers, unregister-before-destroy in every remove(), pruning of buffered poll events on remove/set, dispatch cast agrees with the registered type per flag, no use of an object after its callback (timers re-queued first), interrupt flag under its mutex and stored before the wake-up, deferred close after failed I/O, default timer always present; client registrations keep write interest while a backlog exists (registration table shared with C13); timing (never before due, order of due times), eventual dispatch and epoll behaviour are NOT decided",
+    "C14": ("structural rules on the event loop: equal-range contract of MultiMap::find for forward-scanning consumers, unregister-before-destroy in every remove(), pruning of buffered poll events on remove/set, dispatch cast agrees with the registered type per flag, no use of an object after its callback (timers re-queued first), interrupt flag under its mutex and stored before the wake-up, deferred close after failed I/O, default timer always present; client registrations keep write interest while a backlog exists (registration table shared with C13); a new client is registered before it is handed to user code; timing (never before due, order of due times), eventual dispatch and epoll behaviour are NOT decided",
             "ORD/MPT/TAG/typestate rules over clang AST/CFG", "3 C14"),
     "C11": ("protocol-shape rules on the POSIX implementation: lock-state dataflow (pairing on every path, condition waits only with the lock), flag accesses inside the critical section, waits re-check in a loop and Monitor consumes the flag, set publishes under the lock then notifies (broadcast vs signal), timed waits fail only through the timed primitive, deadline arithmetic by dimension typing + interval analysis + sibling agreement, recursive mutex attribute, Thread handle/join discipline, storage sizes, thin Semaphore mapping; the contracts under all interleavings as such, fairness and the pthread primitives' behaviour are NOT decided",
             "lock-state dataflow + DOM/MPT rules + unit typing + interval analysis over clang AST/CFG", "3 C11"),
-    "C15": ("parser-cursor abstract interpretation (bytes known non-NUL at the cursor, join = min) over readToken/skipSpace/stripComments: no advance or offset read beyond what dominating tests establish, every tokenizer loop cycle advances; table agreement between the string reader's special bytes and the writer's escapes with round-trip of each escape; serialiser/parser exhaustiveness over tags and token kinds; agreement of the bytes counted as line breaks with the bytes that stop the error-column walk, stripComments output bound, string-mode typestate and agreement of its literal loop with the JSON literal automaton on all 341 texts of up to 4 bytes over 4 byte classes; every byte the escape writer stops at has an emitting arm; comment scans of stripComments stop at every line-break byte; equality of re-parsed trees in general and recursion depth are NOT decided",
+    "C15": ("parser-cursor abstract interpretation (bytes known non-NUL at the cursor, join = min) over readToken/skipSpace/stripComments: no advance or offset read beyond what dominating tests establish, every tokenizer loop cycle advances; table agreement between the string reader's special bytes and the writer's escapes with round-trip of each escape; serialiser/parser exhaustiveness over tags and token kinds; agreement of the bytes counted as line breaks with the bytes that stop the error-column walk, stripComments output bound, string-mode typestate and agreement of its literal loop with the JSON literal automaton on all 341 texts of up to 4 bytes over 4 byte classes; every byte the escape writer stops at has an emitting arm; comment scans of stripComments stop at every line-break byte; member counters that are raised and lowered have one net effect per function on all successful paths; equality of re-parsed trees in general and recursion depth are NOT decided",
             "CUR abstract interpretation + TBL/TAG table rules over clang AST/CFG", "3 C15"),
     "C16": ("parser-cursor abstract interpretation over the XML tokenizer (bounds and per-loop progress), a save/rewind-aware progress argument for the content loop of parseElement with callee summaries, escape-table agreement between reader stop sets and writer escapes (tables read from the initialisers), stale-pointer rule for raw String buffers across reallocating calls, copy-on-write rules for element values (shared with C09), line/lineStart pairing (1 known finding), prolog test evaluated only after skipSpace(), parser state reset at the entry of parse(), no look-behind past a scan origin; Xml::Variant assignment acquires before it releases; no read of an assignment's argument after the release of the own payload; character references are inserted only after escaping; structural equality of re-parsed element trees in general is NOT decided",
             "CUR abstract interpretation + TBL/ALIAS/PAIRF rules over clang AST/CFG", "3 C16"),
     "C18": ("the bounds-safety clauses: value-set analysis (byte domain exact, signed char, casts, masks, dominating guards, return-set summaries) of every non-constant index into a constant-size table; (pointer,length) reads covered by the length guards with lock-step advance and bounded fall-through consumption in the UTF-8 decoder/validator; encoder range tests agree with the decoder's length table on representatives of every range; base64 output index bounded by the input index; each String::to<Integer> uses a C parser whose result type covers the return type, unguarded snprintf lengths have room for the longest output; the first byte of a (pointer,length) range is read only when the range is non-empty; that encoder and decoder are inverse on all code points, integer round trips and the hex/base64 values are NOT decided",
             "VSA (value sets/intervals) + PAIRF/CNT/FIN rules over clang AST/CFG", "3 C18"),
-    "C19": ("failure discipline and tree confinement on File.cpp/Directory.cpp: created files are unlinked on every failing path (1 known finding for File::copy), Directory::create returns true only on mkdir success / '.'-'..' / verified existence and fails when the parent cannot be made, File::open keeps no handle on failure and maps each of the 16 flag sets to open(2) flags without O_APPEND / stray O_TRUNC / stray O_CREAT and seeks to the end exactly for appendFlag, recursive unlink calls nothing that follows links and recurses only for DT_DIR entries with the stream closed on every exit; File::size() restores the caller's position after its SEEK_END probe unless it already was the size; the path algebra (simplifyPath, recomposition, getRelativePath), byte fidelity of file I/O and the file system's behaviour are NOT decided",
+    "C19": ("failure discipline and tree confinement on File.cpp/Directory.cpp: created files are unlinked on every failing path (1 known finding for File::copy), Directory::create returns true only on mkdir success / '.'-'..' / verified existence and fails when the parent cannot be made, File::open keeps no handle on failure and maps each of the 16 flag sets to open(2) flags without O_APPEND / stray O_TRUNC / stray O_CREAT and seeks to the end exactly for appendFlag, recursive unlink calls nothing that follows links and recurses only for DT_DIR entries with the stream closed on every exit; File::size() restores the caller's position after its SEEK_END probe unless it already was the size; File::copy opens its destination create+write with O_EXCL iff failIfExists and O_TRUNC otherwise; the path algebra (simplifyPath, recomposition, getRelativePath), byte fidelity of file I/O and the file system's behaviour are NOT decided",
             "MPT/DOM/WHO rules over clang AST/CFG", "3 C19"),
-    "C20": ("parser-cursor abstract interpretation of Process::Arguments (option cursor stays inside the argument strings; 1 known finding for short-option clusters) and of the command-line splitter (bounds + progress; typestate: a quote-opened word is emitted before the next separator / return even when empty), the option/value decision table of the matched-option arms evaluated over all flag/'='/rest/next-argv combinations against getopt_long, option table walk bounds, close/zero pairing of every stored descriptor, pipe-end discipline after vfork (parent closes the child's ends, child dup2 before close before exec, null-terminated argv), reap-then-close in join/kill; prepareEnv emits one NAME=value per map entry and start()/open() size, fill, terminate and pass the pointer array; reads through the argv cursor under a strict order test; what the child receives, exit codes and stream contents are NOT decided",
+    "C20": ("parser-cursor abstract interpretation of Process::Arguments (option cursor stays inside the argument strings; 1 known finding for short-option clusters) and of the command-line splitter (bounds + progress; typestate: a quote-opened word is emitted before the next separator / return even when empty), the option/value decision table of the matched-option arms evaluated over all flag/'='/rest/next-argv combinations against getopt_long, option table walk bounds, close/zero pairing of every stored descriptor, pipe-end discipline after vfork (parent closes the child's ends, child dup2 before close before exec, null-terminated argv), reap-then-close in join/kill; prepareEnv emits one NAME=value per map entry and start()/open() size, fill, terminate and pass the pointer array; reads through the argv cursor under a strict order test; select()'s nfds exceeds every registered descriptor for all masks and descriptor orders; what the child receives, exit codes and stream contents are NOT decided",
             "CUR abstract interpretation + FIN decision table + MPT/ORD rules over clang AST/CFG", "3 C20"),
-    "C08": ("path and pairing rules over every Buffer member: terminator after every end update on owning paths, ownership<->capacity pairing, allocation X+1 with _capacity X, release/re-seat pairing, complete swap, rule of three, ALIAS (a source that may lie in the buffer's own storage is not read after the storage changed; 3 known findings) with a guarded self-assignment, and linear-inequality entailment (own Fourier-Motzkin over dominating guards + class invariant) that every copy/move target and terminator store lies inside the allocation; content equality with a reference byte queue is NOT decided",
+    "C08": ("path and pairing rules over every Buffer member: terminator after every end update on owning paths, ownership<->capacity pairing, allocation X+1 with _capacity X, release/re-seat pairing, complete swap, rule of three, ALIAS (a source that may lie in the buffer's own storage is not read after the storage changed; 3 known findings) with a guarded self-assignment, and linear-inequality entailment (own Fourier-Motzkin over dominating guards + class invariant) that every copy/move target and terminator store lies inside the allocation; a window that swap creates (instead of handing over) gets its terminator; content equality with a reference byte queue is NOT decided",
             "MPT/PAIRF path rules + linear-inequality abstract domain over clang AST/CFG", "3 C08"),
 }
 
